@@ -48,6 +48,16 @@ def vocabulary():
 
 
 PRAGMAS = ["#pragma once", "#pragma", "#pragma omp parallel for private(i)", "#pragma pack(push, 1)", "#pragma weird @ ` $ \\ text"]
+# bodies that recur inside the directive's own spelling ('pragma', '#', blanks): a lexer that locates the text by searching for
+# it instead of by scanning reports a column inside the keyword (round-6 seed R6_C09_A)
+PRAGMAS += ["#pragma " + b for b in ("a", "g", "p", "m", "r", "ma", "ra", "ag", "rag", "pragma", "pragma pragma", "agma x", "#", "# pragma",
+                                    "#pragma once", "p r a g m a", "line 5", "1 \"f.c\"", "\"str\"", "'c'", "//x", "/* c */")]
+_PRAGMA_ALPHA = ["a", "g", "m", "p", "r", "x", "#", " ", "\t", "(", ")", ",", "1", "\"", "@", "pragma", "once"]
+
+
+def random_pragma(rnd):
+    body = "".join(rnd.choice(_PRAGMA_ALPHA) for _ in range(rnd.randrange(1, 7))).strip()
+    return "#pragma " + body if body else "#pragma"
 
 
 def plan(tier, seed):
@@ -289,7 +299,7 @@ def run_shard(spec):
             for _ in range(n):
                 if rnd.random() < 0.05:
                     directive.add(len(toks))
-                    toks.append(rnd.choice(PRAGMAS))
+                    toks.append(rnd.choice(PRAGMAS) if rnd.random() < 0.6 else random_pragma(rnd))
                     kinds.append("PRAGMA")
                 else:
                     k, t = rnd.choice(V)
